@@ -416,7 +416,7 @@ const ruleTail = "oracle = the packets reassembled per the documented contract (
 
 func TestSlipRoundTrip(t *testing.T) {
 	s := core.NewStats(prop, "SlipRoundTrip")
-	s.Rule("rapid: 1-20 non-empty payloads (half of the bytes drawn from END/ESC/ESC_END/ESC_ESC) written with slip.Writer; the stream reaches slip.Reader through a transport that stalls ((0,EOF) like a drained buffer, (0,nil), or (0,time-out error)) at drawn offsets — inside escape pairs, right before/after terminating ENDs, anywhere — optionally hands over the last byte together with io.EOF, and reports EOF only after the last byte; " + ruleTail + "; additionally the end of the stream must read as (empty, isPrefix, io.EOF)")
+	s.Rule("rapid: 1-20 non-empty payloads (half of the bytes drawn from END/ESC/ESC_END/ESC_ESC) written with slip.Writer; the stream reaches slip.Reader through a transport that stalls ((0,EOF) like a drained buffer, (0,nil), or (0,time-out error)), each for 1-5 consecutive reads (an idle line polled repeatedly), at drawn offsets — inside escape pairs, right before/after terminating ENDs, anywhere — optionally hands over the last byte together with io.EOF, and reports EOF only after the last byte; " + ruleTail + "; additionally the end of the stream must read as (empty, isPrefix, io.EOF)")
 	s.Assume("the transport never loses, duplicates or reorders bytes (line noise is outside the property)")
 	ex := exclusions()
 	s.Check(t, func(t *rapid.T, c *core.Case) {
@@ -491,7 +491,7 @@ func TestSlipMuxRoundTrip(t *testing.T) {
 func TestSlipEnumShort(t *testing.T) {
 	s := core.NewStats(prop, "SlipEnumShort")
 	defer s.Flush()
-	s.Rule("enumeration (exhaustive for this sub-domain): every ordered pair of payloads of length 1..3 over {END, ESC, ESC_END, ESC_ESC, 'A'} (155^2 pairs, plus the 155 single packets) × every single stall offset in the written stream × stall kinds (0,EOF)/(0,time-out) × last-byte-with-EOF off/on, through slip.Writer / slip.Reader; oracle as in SlipRoundTrip; non-trivial = a payload holds END and ESC and the stall is inside an escape pair (exact count in nontrivial_enumerated, 1-in-64 hashed subsample)")
+	s.Rule("enumeration (exhaustive for this sub-domain): every ordered pair of payloads of length 1..3 over {END, ESC, ESC_END, ESC_ESC, 'A'} (155^2 pairs, plus the 155 single packets) × every single stall offset in the written stream × stall kinds (0,EOF)/(0,time-out)/(0,EOF) twice in a row × last-byte-with-EOF off/on, through slip.Writer / slip.Reader; oracle as in SlipRoundTrip; non-trivial = a payload holds END and ESC and the stall is inside an escape pair (exact count in nontrivial_enumerated, 1-in-64 hashed subsample)")
 	s.Exhaustive(true)
 	ex := exclusions()
 	alphabet := []byte{slip.END, slip.ESC, slip.ESC_END, slip.ESC_ESC, 'A'}
